@@ -16,7 +16,7 @@ PY = "/venv/bin/python"
 NCPU = int(os.environ.get("VERIF_JOBS", "16"))
 GUARD = "PYHMS_VERIF_HOOKS"
 
-COQ_DIRS = ["Base", "Model", "Gen", "Proofs", "Props", "Extract"]
+COQ_DIRS = ["Base", "Model", "Gen", "Proofs", "Props"]
 GATE_RE = re.compile(
     r"\b(Admitted|admit|Axiom|Axioms|Parameter|Parameters|Conjecture|Conjectures|Admit Obligations)\b|Unset Guard|bypass_check|type-in-type|impredicative-set|Unset Positivity|Unset Universe"
 )
